@@ -75,7 +75,7 @@ def parse_harness(path, scratch):
         elif k == 'OBL':
             o = json.loads(v)
             o.setdefault('tier', 'quick'); o.setdefault('unwind', 2); o.setdefault('out', 16)
-            o.setdefault('cap_s', 600); o.setdefault('backends', ['default'])
+            o.setdefault('cap_s', 1500); o.setdefault('backends', ['default'])
             o['harness'] = h['name']
             h['obls'].append(o)
         elif k == 'VEC':
